@@ -29,6 +29,11 @@ CLAIMED = {
    technique="deterministic simulation of restart-from-durable-state histories: seeded chains of HDF5 save (path/open file) -> from_hdf5/load (same or other shape) on real h5py files, with bit-identity, settings, continued-training, re-save and legacy-layout oracles after every restart",
    text="Seeded history exploration over reachable machine states (ML/MAP, floors, switches, limits incl. None, pre-trained) and statistics values, chains of 1..4 save/restart steps; after every restart the reloaded object must be bit-identical, equal under ==, score identically, carry every recorded setting, train identically, re-save to an equivalent file, and agree with the legacy-layout image. No storage faults injected (the property promises nothing about crashes mid-save).",
    note="Trusted: h5py; the harness's legacy writer (validated at setup against the repository's own legacy/current file pair)."),
+ "C19": dict(
+   design="5.7",
+   technique="deterministic simulation of a caller history: seeded sequences of public calls on a pool of caller-owned objects and Dask collections over them (shared / isolated / placed executor models), with caller interference (in-place scribble and restore) as the injected fault; deep-digest, repeat-call and shares_memory invariants after every call",
+   text="Seeded history exploration: 5..30 calls per history over every public entry point the property lists, NumPy and Dask inputs; after every call every caller-owned object must be bit-identical (I1), a repeated call must return a bitwise-equal result (I2), and after the caller overwrites an input no previously trained model may change or share memory with a caller buffer (I3). Sampling, not proof.",
+   note="Trusted: BLAKE2 deep digest over array bytes / scalars / visible parameters; SimScheduler's shared mode hands tasks the caller's own objects (as Dask's threaded scheduler does). Calls that raise are not C19 violations (inputs must still be untouched)."),
 }
 
 NA = {
